@@ -5,6 +5,7 @@ import ast
 from ..core import AnalysisError, norm, short, walk_local, parent_chain, reaching_assign
 from ..kinds import Typer, TOP, obj, kinds_of, expand, NONE, join
 from . import register
+from ..inline import inlined_view
 
 HREF = "spydrnet/util/hierarchical_reference.py"
 UTIL = "spydrnet/util/"
@@ -269,6 +270,7 @@ def _worklist_closure(ctx, R, rid):
     P = ctx.P
     hc = P.cls(HREF, "HRef")
     ga = hc.methods.get("get_all_hrefs_of_instances")
+    ga = inlined_view(P, ga) if ga is not None else None
     if ga is None:
         raise AnalysisError("anchor vanished: HRef.get_all_hrefs_of_instances")
     n = 0
@@ -672,6 +674,7 @@ def check_c11(ctx, R):
     # H7
     R.rule("H7", "the downward search descends into every child that bounds a target, whether or not it is a target itself")
     ga = hc.methods.get("get_all_hrefs_of_instances")
+    ga = inlined_view(P, ga) if ga is not None else None
     if ga is None:
         raise AnalysisError("anchor vanished: HRef.get_all_hrefs_of_instances")
     pushes = []
